@@ -1,13 +1,20 @@
 import PycommModel.OpsPath
 import PycommModel.Target
+import PycommModel.Logix.Services
 namespace Pycomm
 open Sexp Tgt Path
 
-/-- extension state of the full target (grows with the Logix / SLC parts) -/
+/-- extension state of the full target -/
 structure Ext where
-  dummy : Unit := ()
+  logix : Option Lgx.LState := none
 
-def hookAll : ObjHook Ext := fun _ _ _ => none
+def hookAll : ObjHook Ext := fun t cs req =>
+  match t.ext.logix with
+  | none => none
+  | some st =>
+      match Lgx.logixService st req cs with
+      | none => none
+      | some (st', r) => some ({ t with ext := { t.ext with logix := some st' } }, r)
 
 abbrev FullTarget := Target Ext
 
@@ -38,9 +45,60 @@ def base? : Sexp → Option Base
              generic := { status := ← Sexp.toNat? gs, ext := ← gext.mapM Sexp.toNat?, data := ← Sexp.bytes? gd } }
   | _ => none
 
+def member? : Sexp → Option Lgx.MemberDef
+  | .list [.atom "m", n, i, t, o] => do
+      pure { name := ← Sexp.name? n, info := ← Sexp.toNat? i, typeWord := ← Sexp.toNat? t, offset := ← Sexp.toNat? o }
+  | _ => none
+
+def template? : Sexp → Option Lgx.Template
+  | .list [.atom "t", i, h, sz, nf, .list ms] => do
+      pure { id := ← Sexp.toNat? i, handle := ← Sexp.toNat? h, size := ← Sexp.toNat? sz, nameField := ← Sexp.bytes? nf,
+             members := ← ms.mapM member? }
+  | _ => none
+
+def symbol? : Sexp → Option Lgx.Symbol
+  | .list [.atom "sym", i, n, t, .list ds, a3, a5, a6, acc, m] => do
+      pure { inst := ← Sexp.toNat? i, name := ← Sexp.name? n, symbolType := ← Sexp.toNat? t, dims := ← ds.mapM Sexp.toNat?,
+             attr3 := ← Sexp.toNat? a3, attr5 := ← Sexp.toNat? a5, attr6 := ← Sexp.toNat? a6, access := ← Sexp.toNat? acc,
+             mem := ← Sexp.bytes? m }
+  | _ => none
+
+/-- (logix (rev n) (pages …) (tmpl …) (reads …) (templates …) (controller …) (programs ((s name) sym…) …)) -/
+def logix? : Sexp → Option Lgx.LState
+  | .list [.atom "logix", .list [.atom "rev", r], .list (.atom "pages" :: pg), .list (.atom "tmpl" :: tm),
+           .list (.atom "reads" :: rd), .list (.atom "templates" :: ts), .list (.atom "controller" :: cs),
+           .list (.atom "programs" :: ps)] => do
+      let progs ← ps.mapM fun p => match p with
+        | .list (n :: syms) => do
+            let n' ← Sexp.name? n
+            let ss ← syms.mapM symbol?
+            pure (n', ss)
+        | _ => none
+      pure { rev := ← Sexp.toNat? r,
+             proj := { templates := ← ts.mapM template?, controller := ← cs.mapM symbol?, programs := progs,
+                       pageSchedule := ← pg.mapM Sexp.toNat?, tmplSchedule := ← tm.mapM Sexp.toNat?,
+                       readSchedule := ← rd.mapM Sexp.toNat? } }
+  | _ => none
+
 def targetNew : List Sexp → Option FullTarget
   | [b] => (base? b).map fun base => { base := base, ext := {} }
+  | [b, l] => do
+      let base ← base? b
+      let lg ← logix? l
+      pure { base := base, ext := { logix := some lg } }
   | _ => none
+
+def renderSymMem (s : Lgx.Symbol) : String := "(" ++ toString s.inst ++ " " ++ (Sexp.ofBytes s.mem).render ++ ")"
+
+/-- memory image and write log of the Logix project -/
+def targetMem (t : FullTarget) : String :=
+  match t.ext.logix with
+  | none => "none"
+  | some st =>
+      "ok (controller " ++ " ".intercalate (st.proj.controller.map renderSymMem) ++ ") (programs " ++
+        " ".intercalate (st.proj.programs.map fun p => "(" ++ (Sexp.ofName p.1).render ++ " " ++
+          " ".intercalate (p.2.map renderSymMem) ++ ")") ++ ") (writes " ++
+        " ".intercalate (st.proj.writeLog.map fun w => s!"({w.1} {w.2.1} {w.2.2})") ++ ")"
 
 def renderConn (c : Conn) : String :=
   s!"(conn {c.cid} {c.session} {c.size} {renderBool c.large})"
